@@ -40,11 +40,32 @@ def _user_funcs(tree):
     return {n.name for n in ast.walk(tree) if isinstance(n, ast.FunctionDef)}
 
 
-def triggers_of(src, library=False):
+def _library_roots(main_text):
+    """{module name: set of function names the main script calls as <alias>.<f>(..)}; None if the main file does not parse"""
+    try:
+        tree = ast.parse(main_text)
+    except Exception:
+        return None
+    alias = {}
+    for n in ast.walk(tree):
+        if isinstance(n, ast.ImportFrom) and n.module == "library":
+            for a in n.names:
+                alias[a.asname or a.name] = a.name
+    roots = {}
+    for n in ast.walk(tree):
+        if isinstance(n, ast.Call) and isinstance(n.func, ast.Attribute) and isinstance(n.func.value, ast.Name) and n.func.value.id in alias:
+            roots.setdefault(alias[n.func.value.id], set()).add(n.func.attr)
+    for m in alias.values():
+        roots.setdefault(m, set())
+    return roots
+
+
+def triggers_of(src, library=False, roots=None):
     if isinstance(src, dict):
         out = set()
+        lr = _library_roots(src.get("", ""))
         for k, v in src.items():
-            t = set(triggers_of(v, library=(k != "")))
+            t = set(triggers_of(v, library=(k != ""), roots=(lr.get(k) if (lr is not None and k != "" and k in lr) else None)))
             if k != "":
                 # whether the top-level script terminates is a property of the main file only
                 t -= {"main_terminates", "main_terminates_and_calls_function"}
@@ -163,7 +184,8 @@ def triggers_of(src, library=False):
     if library:
         # functions of a library module are called from the main file (m.f(..)): every one may be reachable,
         # and such a call counts as a call site outside any function
-        top_calls = top_calls + list(fdefs)
+        # (when the main script is known, only the functions it really calls are roots)
+        top_calls = top_calls + (list(fdefs) if roots is None else [f_ for f_ in roots if f_ in fdefs])
     reachable = set()
     work = list(top_calls)
     while work:
